@@ -251,15 +251,20 @@ def mon_c06(case_line, acts):
                         if not info[0]:
                             unresolved = {}
                         rm = info[2].get(0x21, 65535)
+                        if len(unresolved) > rm:
+                            # environment assumption of C06: a resumed CONNACK leaves room for what is carried
+                            # over (retransmission is mandatory, no client can satisfy a shrunken window)
+                            return out
                 continue
             if len(body) >= 2:
                 pid = (body[0] << 8) | body[1]
                 rc = body[2] if len(body) > 2 else 0
-                if typ == 4 and unresolved.get(pid) == 1:
+                # the property's own definition: resolved by a PUBACK, a PUBCOMP or a PUBREC with a failure code
+                if typ == 4 and pid in unresolved:
                     del unresolved[pid]
-                elif typ == 5 and unresolved.get(pid) == 2 and rc >= 0x80:
+                elif typ == 5 and pid in unresolved and rc >= 0x80:
                     del unresolved[pid]
-                elif typ == 7 and unresolved.get(pid) == 2:
+                elif typ == 7 and pid in unresolved:
                     del unresolved[pid]
         elif ev[0] == 'tx':
             p = ev[2]
@@ -325,4 +330,18 @@ def mon_c19(case_line, acts):
                 out.append(V('refused request at action #%d changed the retained list: %s -> %s'
                              % (i, prev.get('ret'), st.get('ret'))))
         prev = st
+    return out
+
+
+def mon_c19_wire(case_line, acts):
+    """no packet on the wire carries a property that is illegal for its type or has an illegal value"""
+    out = []
+    for c in connections(acts):
+        pk, tail, problems = mqttspec.parse_client_stream(c['wire'], strict_flags=False)
+        for p in pk:
+            if p['type'] == 'MALFORMED':
+                e = p['error']
+                if 'is not allowed in' in e or 'flag property' in e or 'Topic Alias 0' in e or \
+                        'Subscription Identifier' in e or 'unknown property' in e:
+                    out.append(V('a packet with an illegal property was sent: %s (%s)' % (e, p['raw'].hex()[:80])))
     return out
